@@ -98,6 +98,22 @@ where
                     let cfgp = root.join(format!("cfg-{}.toml", lang.name()));
                     std::fs::write(&cfgp, crate::sut::config_toml(*lang, cfg)).unwrap();
                     let out = if g.multi { root.join(format!("out-{}", lang.name())) } else { root.join(format!("out-{}.{}", lang.name(), lang.ext())) };
+                    // every other program finds an earlier, longer generation at the output location (what it is about to
+                    // write, followed by the tail of a larger file): what the run leaves behind is the new content only
+                    if k % 2 == 1 {
+                        if let LibOutcome::Ok(m) = &outs[li] {
+                            let tail = "\n}\n) ] */ \"\"\" leftover of an earlier, longer output\n";
+                            if g.multi {
+                                let _ = std::fs::create_dir_all(&out);
+                                for (name, text) in m {
+                                    let _ = std::fs::write(out.join(name), format!("{text}{tail}"));
+                                }
+                            } else if let Some(text) = m.values().next() {
+                                let _ = std::fs::write(&out, format!("{text}{tail}"));
+                            }
+                            rep.count("cli_cross_check_runs_over_a_longer_earlier_output", 1);
+                        }
+                    }
                     let mut args = vec!["--config-file".to_string(), cfgp.to_string_lossy().into_owned()];
                     args.extend(crate::sut::cli_args(*lang, cfg, g.multi, &out, &["src_root"]));
                     let o = crate::sut::run_bin(crate::sut::BinRun { cli: &cli, args: args.clone(), env: vec![], cwd: &root, strace: None, wall_limit: std::time::Duration::from_secs(30) });
